@@ -16,10 +16,14 @@ Definition core_of_ty (t: ty) : fcore :=
          false
          (match t with
           | TUnion [a; b] => is_tnone a || is_tnone b     (* helpers.is_optional: exactly two members, one is None *)
-          | _ => false end).
+          | _ => false end)
+         (match t with TUnion ts => existsb is_tnone ts | _ => false end).   (* a union with a None member *)
 
 Lemma nullable_core t : core_nullable (core_of_ty t) = nullable t.
-Proof. destruct t as [| | | | | | | | | | | | | | | [|a [|b [|c r]]] | | |]; reflexivity. Qed.
+Proof.
+  destruct t as [| | | | | | | | | | | | | | | [|a [|b [|c r]]] | | |]; try reflexivity.
+  unfold core_nullable, core_of_ty, nullable. cbn. destruct (is_tnone a), (is_tnone b); reflexivity.
+Qed.
 
 (* K20 on the field as written in the class (any stack of Annotated/Final wrappers) = the model's fnullable *)
 Theorem fnullable_is_K20_thm : forall (f: field) (ws: list bool),
